@@ -6,7 +6,7 @@ BUILT = {
  "C02": ("exploration", "guarded probes at every unchecked VM access (natural and forced-branch runs) + offline all-paths checker over the bytecode the real compiler emitted, validated against instruction traces of the real VM + control-flow-integrity monitor over every trace (successor relation, shadow call stack)",
          "Every accepted text (directed corpus, enumerated programs, random programs, token mutants and soups that compile) is run with a probe in front of each unchecked access of the VM, naturally and under forced branch schedules, and its emitted bytecode is checked offline on all control-flow paths (decode, jump targets, function regions, minimum stack height, operand ranges); every traced instruction must lie inside the statically computed height range, and every trace is replayed against the encoding (start at the entry, fetch on an instruction boundary, successor = fall-through / jump target / function entry, returns against a shadow call stack), including programs of more than 64 KiB of code. Held on the bytecode seen.",
          "the offline checker is a monitor over recorded compiler output, not a proof about the compiler; accesses inside Vec/String/bitvec are left to the sanitizer passes", "6.2"),
- "C03": ("exploration", "shadow heap (liveness checked at every dereference, double-release detection) + reachability post-condition at the end of every GC::run + direct driver of the collector against a reachability model + valgrind memcheck on the hook-free binary + long runs (millions of allocations into arrays that survived a collection) and one machine with several compilers",
+ "C03": ("exploration", "shadow heap (liveness checked at every dereference, double-release detection) + reachability post-condition at the end of every GC::run + direct driver of the collector against a reachability model + valgrind memcheck on the hook-free binary + long runs (millions of allocations into arrays that survived a collection) and one machine with several compilers + arrays with exactly one heap element (every length up to a bound, every slot)",
          "Allocating programs (directed heap shapes, heap/calls profile random programs) run under a quarantine shadow heap; at every collection the set reachable from the roots must stay allocated with unchanged content; the collector is also driven directly with all operation sequences up to a bound and random longer ones; the directed corpus runs under valgrind on the un-instrumented binary. Held on the collections observed.",
          "the shadow heap sees Float/String/Array boxes; the buffers inside them are covered by valgrind/ASan only", "6.3"),
  "C04": ("fault_enumeration", "allocation ledger audited after every run and after every abort point k (instruction budget hook) + managed-set post-condition at every GC::run + collector driver + valgrind leak check + long runs and one machine with several compilers (ledger audited after the machine is gone)",
